@@ -53,6 +53,12 @@ def win_rows(order):
     if order: w["order"] = [{"e": col("b"), "o": {"d": "Asc"}}]
     return w
 
+def win_offsets(kind):
+    """both frame bounds carry an offset (bound values): n PRECEDING .. m PRECEDING with n > m, or FOLLOWING .. FOLLOWING"""
+    f = {"type": "Rows", "start": {"b": "Preceding", "n": 3}, "end": {"b": "Preceding", "n": 1}} if kind == "p" else \
+        {"type": "Rows", "start": {"b": "Following", "n": 1}, "end": {"b": "Following", "n": 4}}
+    return {"partition": [col("b")], "order": [{"e": col("a"), "o": {"d": "Asc"}}], "frame": f}
+
 def menu():
     _tag[0] = 1000
     select = [
@@ -63,6 +69,7 @@ def menu():
          [c("column", n="a"), c("expr_window", e=fn("Sum", col("a")), w=win(True), a="w")],
          [c("column", n="a"), c("expr_window_name", e=fn("Sum", col("a")), w="w1", a="w")],
          [c("column", n="a"), c("expr_window", e=fn("Sum", col("a")), w=win_np(), a="rt")],
+         [c("column", n="a"), c("expr_window", e=fn("Sum", col("a")), w=win_offsets("p"), a="wp"), c("expr_window", e=fn("Sum", col("a")), w=win_offsets("f"), a="wf")],
          [c("column", n="a"), c("expr_window", e=fn("Sum", col("a")), w=win_rows(False), a="ru"), c("expr_window", e=fn("Count", col("a")), w=win_rows(True), a="rc")],
          # PostgreSQL text search helpers: the optional regconfig comes first in the SQL, second in the Rust call
          [c("expr_as", e=fn("PgTsRankCd", fn("PgToTsvector", col("c")), fn("PgToTsquery", val("String"))), a="r"), c("expr", e=fn("PgArrayAgg", col("a"))), c("expr", e=fn("PgJsonAgg", bin_("Add", col("a"), val()))), c("expr", e=fn("PgGenRandomUuid"))],
@@ -92,6 +99,10 @@ def menu():
           c("and_where", e=bin_("Equal", bin_("BitOr", bin_("RShift", col("a"), val()), bin_("LShift", col("b"), val())), val()))],
          # the same text bound twice (every occurrence is a value of its own), and a comparison with an absent value
          [c("and_where", e=eq(col("c"), val("String", "dup"))), c("and_where", e=bin_("NotEqual", col("c"), val("String", "dup"))), c("and_where", e=eq(col("b"), {"k": "val", "v": {"t": "Int", "null": True}}))],
+         [c("and_where", e={"k": "in", "neg": False, "e": col("a"), "vs": [val(), {"k": "val", "v": {"t": "Int", "null": True}}, val()]}),
+          c("and_where", e={"k": "in", "neg": True, "e": col("c"), "vs": [val("String"), {"k": "val", "v": {"t": "String", "null": True}}]})],
+         # text that needs escaping on some backends only (double quote, newline, tab) or none (non-ASCII): C09's literal spelling
+         [c("and_where", e=bin_("NotEqual", col("c"), val("String", "say \"hi\"\n\tZo\u00eb \u20ac"))), c("and_where", e=bin_("NotEqual", col("c"), val("String", "tab\there")))],
          [c("cond_where", c=cond("all", True, [])), c("cond_where", c=cond("any", False, [eq(col("a"), val()), eq(col("b"), val())]))],
          [c("and_where", e={"k": "between", "neg": False, "e": col("a"), "a": val(), "b": val()}), c("and_where", e={"k": "like", "neg": False, "e": col("c"), "p": "x%", "esc": "|"})],
          # a quoted token that ends in a backslash, followed by bound values
@@ -106,7 +117,9 @@ def menu():
          [c("union", type="Distinct", q=sel(c("column", n="k"), c("from", t=["t2"]))), c("union", type="Except", q=sel(c("column", n="t1_id"), c("from", t=["t2"]), c("and_where", e=eq(col("x"), val()))))],
          [c("union", type="Intersect", q=sel(c("column", n="k"), c("from", t=["t2"])))]],
         [[], [c("order_by", e=col("a"), o={"d": "Asc"})], [c("order_by", e=col("a"), o={"d": "Desc"}, nulls="Last"), c("order_by", e=col("id"), o={"d": "Asc"})],
-         [c("order_by", e=col("a"), o={"d": "Field", "field": [V(), V()]})], [c("order_by", e=bin_("Add", col("a"), val()), o={"d": "Asc"}, nulls="First")]],
+         [c("order_by", e=col("a"), o={"d": "Field", "field": [V(), V()]})], [c("order_by", e=bin_("Add", col("a"), val()), o={"d": "Asc"}, nulls="First")],
+         [c("order_by", e=col("c"), o={"d": "Field", "field": [V("String", "x\"y"), V("String", "\u00e9t\u00e9"), V("String", "line\nbreak")]})],
+         [c("order_by", e=col("a"), o={"d": "Field", "field": [V(), V()]}, nulls="Last"), c("order_by", e=col("id"), o={"d": "Desc"}, nulls="First")]],
         [[], [c("limit", n=3)], [c("limit", n=3), c("offset", n=1)]],
         [[], [c("lock", type="Update")], [c("lock", type="Share", tables=[["t1"]], behavior="SkipLocked")], [c("lock", type="NoKeyUpdate", behavior="Nowait")],
          [c("lock", type="Update", tables=[["t1"], ["t2"]], behavior="SkipLocked")], [c("lock", type="Share", tables=[["t1"], ["t2"], ["t3"]])]],
@@ -141,6 +154,7 @@ def menu():
     update = [
         [[c("table", t=["t1"])]],
         [[c("value", col="a", e=val())], [c("value", col="a", e=val()), c("value", col="c", e=val("String"))], [c("value", col="a", e=bin_("Add", col("a"), val()))],
+         [c("value", col="a", e=bin_("Add", col("a"), val())), c("value", col="c", e=val("String")), c("value", col="a", e=bin_("Mul", col("a"), val()))],
          [c("value", col="a", e=bin_("Sub", col("a"), bin_("Sub", col("b"), val()))), c("value", col="b", e=bin_("Div", col("b"), bin_("Div", val(), val())))]],
         [[], [c("from", t=["t2"])], [c("from", t=["t2"]), c("from", t=["t3"])]],
         [[], [c("and_where", e=eq(col("b"), val()))], [c("cond_where", c=cond("any", False, [eq(col("b"), val()), eq(col("b"), val())]))],
